@@ -39,7 +39,8 @@ func init() {
 		}
 		out, err := generate(spec, cfg)
 		if err != nil {
-			e := err.Error(); fmt.Println("ERROR:", e)
+			e := err.Error()
+			fmt.Println("ERROR:", e)
 			return nil
 		}
 		fmt.Println(out)
